@@ -857,21 +857,11 @@ fn judge_child(plan: &Plan, spec: &SpawnSpec, si: usize, pid: i32, mo: &ModelOut
     if c.exec_pgid != want_pgid {
         violate("pgid", format!("pgid/setpgid={}", spec.setpgid), format!("{}: child process group {}, expected {}", ctx, c.exec_pgid, want_pgid));
     }
-    // ---- C17
-    if let Some(rep) = &c.report {
-        judge_alloc(rep, ctx, true);
-    }
-    // ---- C18
-    if c.exec_mask != 0 {
-        violate("sigmask_inherited", format!("sigmask_inherited/parent_mask_nonzero={}", plan.parent.sigmask != 0), format!("{}: the program starts with signal mask {:#x} (spawning thread's mask {:#x})", ctx, c.exec_mask, plan.parent.sigmask));
-    }
-    if c.exec_sigpipe != Some(Disp::Default) {
-        violate("sigpipe_not_default", format!("sigpipe_not_default/parent={:?}", plan.parent.sigpipe), format!("{}: the program starts with SIGPIPE {:?}", ctx, c.exec_sigpipe));
-    }
+    // C17 / C18 are judged for every child of every family in runner::post_checks
     let _ = si;
 }
 
-fn judge_alloc(rep: &ChildReport, ctx: &str, success: bool) {
+pub fn judge_alloc(rep: &ChildReport, ctx: &str, success: bool) {
     if rep.alloc_count > 0 {
         let sz = rep.alloc_sizes.first().cloned().unwrap_or(0);
         let class = if sz >= 384 { "ge384" } else if sz >= 64 { "ge64" } else { "small" };
@@ -903,7 +893,6 @@ fn judge_lookup(spec: &SpawnSpec, spawn_idx: usize, mo: &ModelOut, ctx: &str) {
         }
     }
     if c.exec.is_none() {
-        judge_alloc(rep, ctx, false);
         if tried.len() > 1 {
             s.k.probe("path_search_all_failed");
         }
@@ -1066,6 +1055,30 @@ fn gen_streams(rng: &mut Rng, spec: &mut SpawnSpec, allow_invalid: bool) {
             spec.stderr = RedirSpec::None;
         }
     }
+}
+
+/// parent signal state for C18: mask of the spawning thread and SIGPIPE disposition
+pub fn gen_signal_state(rng: &mut Rng, plan: &mut Plan) {
+    let blockable: Vec<i32> = (1..=64).filter(|s| *s != 9 && *s != 19 && *s != 32 && *s != 33).collect();
+    let mut mask = 0u64;
+    match rng.below(4) {
+        0 => {}
+        1 => mask = sigbit(*rng.pick(&blockable)),
+        2 => {
+            for s in &blockable {
+                if rng.chance(1, 2) {
+                    mask |= sigbit(*s);
+                }
+            }
+        }
+        _ => {
+            for s in &blockable {
+                mask |= sigbit(*s);
+            }
+        }
+    }
+    plan.parent.sigmask = mask;
+    plan.parent.sigpipe = *rng.pick(&[Disp::Ignore, Disp::Ignore, Disp::Default, Disp::Handler]);
 }
 
 pub fn generate(prop: &str, rng: &mut Rng, plan: &mut Plan, index: u64) {
@@ -1412,26 +1425,7 @@ pub fn generate(prop: &str, rng: &mut Rng, plan: &mut Plan, index: u64) {
             sp.spawns.push(spec);
         }
         "C18" => {
-            let blockable: Vec<i32> = (1..=64).filter(|s| *s != 9 && *s != 19 && *s != 32 && *s != 33).collect();
-            let mut mask = 0u64;
-            match rng.below(4) {
-                0 => {}
-                1 => mask = sigbit(*rng.pick(&blockable)),
-                2 => {
-                    for s in &blockable {
-                        if rng.chance(1, 2) {
-                            mask |= sigbit(*s);
-                        }
-                    }
-                }
-                _ => {
-                    for s in &blockable {
-                        mask |= sigbit(*s);
-                    }
-                }
-            }
-            plan.parent.sigmask = mask;
-            plan.parent.sigpipe = *rng.pick(&[Disp::Ignore, Disp::Ignore, Disp::Default, Disp::Handler]);
+            gen_signal_state(rng, plan);
             let n = 1 + rng.below(3) as usize;
             for _ in 0..n {
                 let mut spec = SpawnSpec::default();
